@@ -95,10 +95,15 @@ impl Function for Snakecase {
                             ))
                         },
                     )?;
+                    // a constant that is not a string (e.g. `[1]`) is a compile error, not a panic
                     let boundary = into_boundary(
                         value
                             .try_bytes_utf8_lossy()
-                            .expect("cant convert to string")
+                            .map_err(|_| -> Box<dyn DiagnosticMessage> {
+                                Box::new(ExpressionError::from(
+                                    "expected static string for excluded_boundaries",
+                                ))
+                            })?
                             .as_ref(),
                     )?;
                     boundaries.push(boundary);
